@@ -36,10 +36,12 @@ func init() {
 				ns = append(voters(2), NodeSpec{Suffrage: raft.Nonvoter, InBootstrap: true, StartUp: true})
 			}
 			return &Scenario{Nodes: ns, Timed: true, Devs: DevStepEarly, Horizon: 1500,
-				Goal: func(w *World) bool { return w.vals["probed"] == 1 && w.callsDone() && w.now() > w.tvals["iso"]+600*time.Millisecond },
+				Goal: func(w *World) bool {
+					return w.vals["probed"] == 1 && w.callsDone() && w.now() > w.tvals["iso"]+600*time.Millisecond
+				},
 				Steps: []Step{
 					stepDo("set-extras", nil, func(w *World) { setExtras(w, perm) }),
-					stepDo("isolate-leader-from-voters", func(w *World) bool { return w.now() >= 1*time.Second && w.stableLeader() != nil }, func(w *World) {
+					earlyStep("isolate-leader-from-voters", func(w *World) bool { return w.now() >= 1*time.Second && w.stableLeader() != nil }, func(w *World) {
 						l := w.leader()
 						if l == nil {
 							panic("no leader")
@@ -75,8 +77,8 @@ func init() {
 
 	// C13 second half: a fault-free cluster keeps one leader and one term.
 	regScenario("quiet3", func() *Scenario {
-		return &Scenario{Nodes: voters(3), Timed: true, Devs: DevRand, Horizon: 2500,
-			Goal: func(w *World) bool { return w.now() >= 5*time.Second },
+		return &Scenario{Nodes: voters(3), Timed: true, Devs: DevRand, Horizon: 6000,
+			Goal:  func(w *World) bool { return w.now() >= 5*time.Second },
 			Steps: []Step{stepDo("set-extras", nil, func(w *World) { setExtras(w, []int{1, 0, 2}) })}}
 	})
 
@@ -91,7 +93,7 @@ func init() {
 				Goal: func(w *World) bool { return w.vals["healed"] == 1 && w.now() >= w.tvals["heal"]+500*time.Millisecond },
 				Steps: []Step{
 					stepDo("set-extras", nil, func(w *World) { setExtras(w, []int{0, 2, 1, 4, 3}[:n]) }),
-					stepDo("isolate-minority", func(w *World) bool { return w.now() >= 1*time.Second && w.stableLeader() != nil }, func(w *World) {
+					earlyStep("isolate-minority", func(w *World) bool { return w.now() >= 1*time.Second && w.stableLeader() != nil }, func(w *World) {
 						l := w.leader()
 						if l == nil {
 							panic("no leader")
@@ -239,4 +241,10 @@ func (m *Monitors) timedEnd() {
 			m.fail("C13", "healthy-leader-deposed", "fault-free run of %v saw leaders in %d terms: %v", w.now(), len(m.leaders), fmt.Sprint(m.leaders))
 		}
 	}
+}
+
+// earlyStep: a step whose default instant is given by when; with DevStepEarly it is also tried at every
+// earlier quiescent point at which a stable leader exists.
+func earlyStep(name string, when func(w *World) bool, do func(w *World)) Step {
+	return Step{Name: name, When: when, Do: do, EarlyWhen: func(w *World) bool { return w.stableLeader() != nil }}
 }
